@@ -414,6 +414,7 @@ def oracle(run, deep):
                     return
     option_engines(run, fresh)
     process_wide_state(run)
+    dialect_histories(run)
     # the module-level route (yaql.eval: one engine and one table of parsed texts per process): overlapping calls after
     # a long history, thread switch at every line boundary of yaql/__init__.py
     import evalrace
@@ -512,6 +513,64 @@ def process_wide_state(run):
         yaql.YaqlFactory(keyword_operator=None).create()
 
 
+DIALECTS = ["default", "delegates", "nokw", "legacy", "legacy-delegates", "legacy+op", "default+op", "other-alias"]
+DIALECT_TEXTS = ["1 + 2", "$(1)", "f()(2)", "$.a.b(c => 1)", "1 : 2", "a : b + 1", "a &&& b", "x is y", "$.is", "{a => 1}", "a => 1",
+                 "f(a => 1)", "not a or b", "isnt a", "2 %% 3", "a isnt", "1 +", "[1, 2][0]", "$x -> $y", "'s' =~ 't'"]
+
+
+def _dialect_run(spec):
+    import json
+    import os
+    import subprocess
+    helper = os.path.join(os.path.dirname(os.path.dirname(os.path.abspath(__file__))), "c01_dialects.py")
+    p = subprocess.run([sys.executable, "-W", "ignore", helper, json.dumps(spec)], capture_output=True, text=True, timeout=300,
+                       env=dict(os.environ))
+    try:
+        return json.loads(p.stdout.strip().split("\n")[-1])
+    except Exception:
+        return {"__error__": (p.stderr or p.stdout)[-400:]}
+
+
+def dialect_histories(run):
+    """Engines of several dialects in ONE process - default, delegates, no keyword operator, legacy (plain, with delegates,
+    with an inserted operator), customised tables - created in varying orders, optionally with the factory customised
+    further after the engine was created (before / after the engine's first parse): every engine parses every text as
+    the only engine of a brand-new interpreter with the same configuration does."""
+    import concurrent.futures
+    ref = {}
+    with concurrent.futures.ThreadPoolExecutor(max_workers=8) as ex:
+        for name, r in zip(DIALECTS, ex.map(lambda n: _dialect_run({"order": [n], "texts": DIALECT_TEXTS}), DIALECTS)):
+            ref[name] = r.get(name)
+    if any(v is None for v in ref.values()):
+        run.note("dialect histories: reference run failed for %s" % [k for k, v in ref.items() if v is None])
+        return
+    orders = [DIALECTS[i:] + DIALECTS[:i] for i in range(0, len(DIALECTS), 2 if run.quick else 1)]
+    orders += [list(reversed(DIALECTS))]
+    specs = []
+    for i, o in enumerate(orders):
+        specs.append({"order": o, "texts": DIALECT_TEXTS, "modify": i % 2 == 1, "warm": i % 4 == 3})
+    specs.append({"order": DIALECTS, "texts": DIALECT_TEXTS, "modify": True, "warm": False})
+    specs.append({"order": DIALECTS, "texts": DIALECT_TEXTS, "modify": True, "warm": True})
+    with concurrent.futures.ThreadPoolExecutor(max_workers=8) as ex:
+        results = list(ex.map(_dialect_run, specs))
+    for spec, res in zip(specs, results):
+        if "__error__" in res:
+            run.fail("violation", "engines of several dialects could not be created / used in one process: %s" % res["__error__"][-200:],
+                     {"dialect_history": spec})
+            return
+        for name in spec["order"]:
+            for t in DIALECT_TEXTS:
+                run.case(("dialects", tuple(spec["order"]), spec["modify"], spec["warm"], name, t), nontrivial=True)
+                run.count("dialect_history_parse")
+                if res[name][t] != ref[name][t]:
+                    run.fail("violation", "an engine parses a text differently from the only engine of a brand-new interpreter with the "
+                                          "same configuration (it depends on engines created earlier in the process, or on changes made "
+                                          "to its factory after it was created)",
+                             {"dialect_history": {k: spec[k] for k in ("order", "modify", "warm")}, "engine": name, "text": t,
+                              "observed": res[name][t], "required": ref[name][t]})
+                    return
+
+
 def option_engines(run, fresh):
     """Engines created with every documented option (yaql.debug included), used after engines of OTHER dialects were
     created in the same process, sequentially and under a strict two-call alternation: same results as a fresh default engine."""
@@ -600,6 +659,24 @@ def load_corpus():
 
 def replay(run, data):
     d = data.get("data", {})
+    if "dialect_history" in d and "engine" in d:
+        h = d["dialect_history"]
+        ref = _dialect_run({"order": [d["engine"]], "texts": [d["text"]]})
+        got = _dialect_run({"order": h["order"], "texts": [d["text"]], "modify": h["modify"], "warm": h["warm"]})
+        return ref.get(d["engine"]) == got.get(d["engine"])
+    if d.get("route") == "yaql.eval":
+        class P:
+            failed = False
+            rng, quick, cov = run.rng, True, {}
+            def case(self, *a, **k): pass
+            def count(self, *a, **k): pass
+            def note(self, *a, **k): pass
+            def n(self, q, t): return q
+            def fail(self, *a, **k): self.failed = True
+        p = P()
+        import evalrace
+        evalrace.run_races(p, "C01")
+        return not p.failed
     eng = engine()
     if "schedule" in d and "texts" in d:
         s = Scheduled(eng, d["texts"])
